@@ -1,7 +1,7 @@
 """C06 — k-means training descends the true distortion and stops by its stated rule."""
 import numpy as np
 
-from vf import gen, ref, sut
+from vf import gen, guard, ref, sut
 from vf.runner import Registry
 
 REG = Registry(
@@ -179,7 +179,8 @@ def c_stop(ctx, case):
     if closest < 1e-6 and thr:
         ctx.discard("convergence value within 1e-6 of the threshold")
     m = km_machine(case, cap, thr)
-    kfit(m, case)
+    with guard.budget(kstar + 2):  # the rule stops at k*: a fit that is still iterating after k*+2 is reported, not waited for
+        kfit(m, case)
     got = np.array(m.centroids_, dtype=float)
     sc = float(np.abs(X).max())
     spread = float(np.abs(X - X.mean(axis=0)).max()) + 1e-300
